@@ -237,3 +237,90 @@ def gen_program(rng, family=None):
     if family == "twocyc":
         return gen_two_cycles(rng), family
     raise ValueError(family)
+
+
+# --------------------------------------------------------------------------- nesting
+
+
+def iface(n):
+    """(consumed names, produced names) of a PDL node; for a nested graph: what crosses its boundary."""
+    if n["kind"] != "graph":
+        return list(n["inputs"]) + list(n.get("wait_for", [])), list(n.get("outputs", [])) + list(n.get("emit", []))
+    ins, outs = [], []
+    for m in n["graph"]["nodes"]:
+        i, o = iface(m)
+        ins += i
+        outs += o
+    free = [p for p in dict.fromkeys(ins) if p not in outs]
+    sel = n["graph"].get("selected")
+    if sel is not None:
+        outs = [o for o in outs if o in sel]
+    return free, list(dict.fromkeys(outs))
+
+
+def _data_graph(g):
+    import networkx as nx
+    D = nx.DiGraph()
+    first = {}
+    for n in g["nodes"]:
+        D.add_node(n["name"])
+        for o in iface(n)[1]:
+            first.setdefault(o, n["name"])
+    for n in g["nodes"]:
+        for p in iface(n)[0]:
+            if p in first and first[p] != n["name"]:
+                D.add_edge(first[p], n["name"])
+    return D
+
+
+def convex_subset(rng, g, min_size=1):
+    """A dependency-closed group of nodes: nothing leaves the group and comes back."""
+    import networkx as nx
+    D = _data_graph(g)
+    names = [n["name"] for n in g["nodes"]]
+    if not names:
+        return []
+    S = set(rng.sample(names, rng.randint(min_size, max(min_size, min(len(names), 4)))))
+    changed = True
+    while changed:
+        changed = False
+        desc = set().union(*[nx.descendants(D, s) for s in S]) if S else set()
+        anc = set().union(*[nx.ancestors(D, s) for s in S]) if S else set()
+        mid = (desc & anc) - S
+        if mid:
+            S |= mid
+            changed = True
+    return [n for n in names if n in S]
+
+
+def nest(rng, g, S, name, inner_bind=0.0, select_inner=False):
+    """Wraps the nodes named in S into a nested graph used as the single node `name`."""
+    import copy
+    g = copy.deepcopy(g)
+    inner_nodes = [n for n in g["nodes"] if n["name"] in S]
+    outer_nodes = [n for n in g["nodes"] if n["name"] not in S]
+    inner = {"nodes": inner_nodes, "bound": {}, "entrypoints": None, "selected": None, "name": name + "_g"}
+    # bindings of names used only inside the group may move onto the inner graph
+    used_outside = {p for n in outer_nodes for p in iface(n)[0]}
+    used_inside = {p for n in inner_nodes for p in iface(n)[0]}
+    for k in list(g.get("bound", {})):
+        if k in used_inside and k not in used_outside and (select_inner or rng.random() < inner_bind):
+            if not select_inner and rng.random() < 0.3:
+                # bound on the inner graph AND (with another value) on the enclosing graph: the outer binding wins,
+                # exactly as flat.bind(k=inner_v).bind(k=outer_v) would
+                inner["bound"][k] = g["bound"][k] + 1000
+            else:
+                inner["bound"][k] = g["bound"].pop(k)
+    if select_inner:
+        inner_outs = [o for n in inner_nodes for o in iface(n)[1]]
+        needed = [o for o in inner_outs if o in used_outside]
+        extra = [o for o in inner_outs if o not in needed and rng.random() < 0.5]
+        sel = needed + extra
+        if sel and len(sel) < len(inner_outs):
+            inner["selected"] = sel
+    gn = {"name": name, "kind": "graph", "graph": inner, "inputs": [], "outputs": [], "in_hist": [], "out_hist": []}
+    pos = min([i for i, n in enumerate(g["nodes"]) if n["name"] in S] or [0])
+    new_nodes = [n for n in g["nodes"] if n["name"] not in S]
+    new_nodes.insert(min(pos, len(new_nodes)), gn)
+    g["nodes"] = new_nodes
+    return g
